@@ -16,7 +16,8 @@ Client programs:
       future answers Pending).  T1 writes X_1 and wakes by reference; if that created a Runnable, T1 runs it.
   P2 "two wakers on an idle task": the task is idle.  T0 and T1 each write their X_i, wake by reference and run the
       Runnable if they obtained one.
-  P3 = P1 with a second waker T2.
+  P4 (thorough) = P1 where the future completes at T0's second poll (output written, POLLING cleared by fetch_update).
+  (P3 = P1 with a second waker does not finish within 20 min and is not run.)
 
 Obligations (per C11-consistent execution of the whole program):
   * `no-data-race-on-the-future`: no two accesses to F (or an X_i write and a poll's read of it) are unordered by
@@ -247,8 +248,9 @@ def programs(tier):
     q = [("P1 scheduled task: run || publish+wake(+run)", sched, 1, 1, 3, None),
          ("P2 idle task: publish+wake(+run) || publish+wake(+run)", idle, 0, 2, 3, None)]
     if tier != "quick":
-        q += [("P3 scheduled task: run || publish+wake(+run) || publish+wake(+run)", sched, 1, 2, 3, None),
-              ("P4 scheduled task, the future completes at the runner's 2nd poll: run || publish+wake(+run)", sched, 1, 1, 3, (0, 2))]
+        # P3 (P1 with a second waker: 7 x 8 x 8 = 448 path combinations of three threads) did not finish in 20 min on 16 cores and
+        # is therefore NOT part of the thorough tier
+        q += [("P4 scheduled task, the future completes at the runner's 2nd poll: run || publish+wake(+run)", sched, 1, 1, 3, (0, 2))]
     return q
 
 
